@@ -39,11 +39,26 @@ class SweepRecorder:
         def e0(ms, snode, ttns, *a, **k):
             rec.events.append(["0site", rec.idx(ttns, snode), float(np.sign(np.real(a[-1]) if not k else np.real(k.get("tau", 0))))])
             return rec.o0(ms, snode, ttns, *a, **k)
-        te.evolve_1site, te.evolve_0site = e1, e0
+        from renormalizer.tn.tree import TTNS
+        self.TTNS, self.o2, self.ou = TTNS, te.evolve_2site, TTNS.update_2site
+        rec.ps2 = []
+
+        def e2(snode, ttns, *a, **k):
+            rec.ps2.append(["ev2", rec.idx(ttns, snode), 0])
+            return rec.o2(snode, ttns, *a, **k)
+
+        def upd(self_, node, tensor, m=None, percent=0, cano_parent=True):
+            rec.ps2.append(["upd2", rec.idx(self_, node), 1 if cano_parent else 0])
+            return rec.ou(self_, node, tensor, m, percent, cano_parent=cano_parent)
+
+        def e1b(snode, ttns, *a, **k):
+            rec.ps2.append(["ev1", rec.idx(ttns, snode), 0])
+            return e1(snode, ttns, *a, **k)
+        te.evolve_1site, te.evolve_0site, te.evolve_2site, TTNS.update_2site = e1b, e0, e2, upd
         return self
 
     def __exit__(self, *a):
-        self.te.evolve_1site, self.te.evolve_0site = self.o1, self.o0
+        self.te.evolve_1site, self.te.evolve_0site, self.te.evolve_2site, self.TTNS.update_2site = self.o1, self.o0, self.o2, self.ou
 
 
 def _is_full(t, u, mask, keys):
@@ -147,6 +162,14 @@ def _tree_cases(args):
                                     signs_ok = all((e[2] > 0) == (e[0] == "1site") for e in rec.events) if not imag else True
                                     if not signs_ok:
                                         out["viol"].append(("C12:schedule-signs:tdvp_ps", "site tensors must be evolved forward (+tau/2) and bond tensors backward (-tau/2)", detail))
+                            elif scheme == "tdvp_ps2" and "ps2:" + json.dumps(par) in schedules:
+                                with SweepRecorder(cur, node_index) as rec:
+                                    new = cur.evolve(ttno, dt)
+                                out["traces"] += 1
+                                exp_ev = [list(e) for e in schedules["ps2:" + json.dumps(par)] if e[0] != "half"]
+                                if rec.ps2 != exp_ev:
+                                    first = next((i for i, (a, b) in enumerate(zip(rec.ps2, exp_ev)) if a != b), min(len(rec.ps2), len(exp_ev)))
+                                    out["viol"].append(("C12:schedule:tdvp_ps2", f"the recorded two-site sweep differs from the specified schedule at event {first}: got {rec.ps2[first:first + 3]}, expected {exp_ev[first:first + 3]}", detail))
                             else:
                                 new = cur.evolve(ttno, dt)
                             after = trees.dense(cur, order=list(u.basis))
@@ -249,10 +272,25 @@ def run(ctx, owned="C12"):
             ctx.violation(f"C12:spec:{r['violated']}", "TreeSweep violates " + r["violated"], {"tlc": r.get("error_text", "")[:2000]})
         for e in r["emitted"]:
             schedules[json.dumps(e["par"])] = e["events"]
+    trees_ = list(schedules)
+    for K in ((2, 3, 4) if tier == "quick" else (2, 3, 4, 5)):
+        cfg = tlc.make_cfg(constants=dict(K=K, Mode='"ps2"', Bug='"none"'), spec="Spec", invariants=["EnvFresh", "CentreHome", "NetTime", "EmitSchedule"])
+        r = tlc.run("TreeOpt", cfg, mode="emit", timeout=3000)
+        ctx.add_tlc(r, f"TreeOpt ps2 K={K}: every increasing tree, two-site forward + backward recursion")
+        if r["violated"]:
+            ctx.violation(f"C12:spec:TreeOpt:{r['violated']}", "TreeOpt violates " + r["violated"], {"tlc": (r.get("error_text") or "")[:2000]})
+        for e in r["emitted"]:
+            schedules["ps2:" + json.dumps(e["par"])] = e["events"]
+    for bug in ("env1b-child-only", "env2-skips-node"):
+        cfg = tlc.make_cfg(constants=dict(K=4, Mode='"ps2"', Bug=f'"{bug}"'), spec="Spec", invariants=["EnvFresh"])
+        r = tlc.run("TreeOpt", cfg, mode="check", timeout=600, expect_violation=True)
+        ctx.add_tlc(r, f"regression (must fail): TreeOpt ps2 {bug}")
+        if r["violated"] != "EnvFresh":
+            raise MachineryError(f"TreeOpt regression {bug} did not violate EnvFresh")
     jobs = []
     fams = ["spin", "elec", "eph"]
     ji = 0
-    for key in schedules:
+    for key in trees_:
         par = json.loads(key)
         K = len(par)
         variants = [[1] * K]
@@ -299,7 +337,7 @@ def run(ctx, owned="C12"):
         return
     ctx.notes["measured"] = stats
     ctx.notes["observed_for_other_properties"] = other
-    ctx.sample({"tree_schedule_from_TLC": {"par": json.loads(list(schedules)[-1]), "events": schedules[list(schedules)[-1]]}})
+    ctx.sample({"tree_schedule_from_TLC": {"par": json.loads(trees_[-1]), "events": schedules[trees_[-1]]}})
     ctx.cov["rule"] = ("(tree, scheme, real/imaginary, number of calls): every increasing tree with 2..4 (thorough 5) nodes from TLC in up to 4 groupings (single sets, a two-set node, "
                        "a dummy internal node, a dummy root) 4 schemes, 3 model families, generic full-bond states; distinct = distinct tuple")
     ctx.assumptions += ["thresholds: VMF 2e-8, Taylor-4 P&C max(0.1 tau^5, 1e-8), PS/PS2 1e-8 (PS-1 at sector-full but not one-sided-full bonds: 0.01 tau^3) per call with ||H|| = 1, tau in {0.5, 0.15, 0.05} (floating-point claims, dense oracle)"]
